@@ -405,7 +405,8 @@ func RunCase(cs CaseSpec) (events []interface{}, obs []interface{}) {
 				}
 			}
 			if cs.MaxWorkers > 1 {
-				cfg.Workers = 3 + rng.Intn(cs.MaxWorkers)
+				// the value given to --num-workers: 1, 2 (fewer than the two helper goroutines the code subtracts), 3 ...
+				cfg.Workers = 1 + rng.Intn(cs.MaxWorkers+2)
 			}
 		}
 		add(IngestVariant(t, rows, cfg, delim, db))
@@ -538,7 +539,7 @@ func cliCase(t *Table, cs CaseSpec, rng *rand.Rand) (events []interface{}) {
 		ds := []rune{'\t', '|', ';', ' ', '§'} // (a delimiter may be any character, also one of several bytes)
 		d := ds[rng.Intn(len(ds))]
 		fp2, _ := r.WriteFile("data.alt", tbl.CSV(all, d))
-		args := []string{"commit", "alt", fp2, "alt", "-n", "3", "--delimiter", string(d)}
+		args := []string{"commit", "alt", fp2, "alt", "-n", []string{"2", "3"}[rng.Intn(2)], "--delimiter", string(d)}
 		if len(t.PK) > 0 {
 			args = append(args, "-p", strings.Join(t.PK, ","))
 		}
@@ -583,6 +584,71 @@ func cliCase(t *Table, cs CaseSpec, rng *rand.Rand) (events []interface{}) {
 		c3, _ := head()
 		if unique {
 			events = append(events, map[string]interface{}{"op": "recommit", "step": "changed", "samecontent": false, "newcommit": c3 != c2, "err": ""})
+		}
+	}
+	// the commit cache again: (a) the file changes, `wrgl diff BRANCH --branch-file` ingests it into the cache
+	// WITHOUT moving the branch, and the commit that follows must still commit the change; (b) the file is
+	// rewritten within the same second as the cached ingest (timestamps of commits have one-second resolution)
+	if unique && len(t.Rows) > 0 {
+		projectHead := func(variant int, cur [][]string) {
+			db, rs, closeFn, err := r.Open()
+			if err != nil {
+				return
+			}
+			defer closeFn()
+			if sum, err := ref.GetHead(rs, "main"); err == nil {
+				if com, err := objects.GetCommit(db, sum); err == nil {
+					parsed, _ := parseCSV(tbl.CSV(append([][]string{t.Cols}, cur...), 0), 0)
+					cfg := Cfg{Seed: cs.Seed, Variant: variant, Kind: "cli", Workers: 1, Cols: t.Cols, PK: t.PK, NRows: len(cur), Delim: ","}
+					if cfg.PK == nil {
+						cfg.PK = []string{}
+					}
+					events = append(events, Project(t, parsed[1:], db, com.Table, nil, cfg))
+				}
+			}
+		}
+		edit := func(tag string) [][]string {
+			cur := append([][]string{}, rows...)
+			cur[0] = append([]string{}, cur[0]...)
+			cur[0][len(cur[0])-1] += tag
+			return cur
+		}
+		// (a) the file is edited "now"; a second later the diff ingests it into the cache; the commit finds the
+		// cache valid (the file is older than the cached ingest) and has to compare TABLES, not cache entries
+		curA := edit("~a")
+		r.WriteFile("data.csv", tbl.CSV(append([][]string{t.Cols}, curA...), 0))
+		edited := time.Now().Add(-time.Millisecond)
+		os.Chtimes(fp, edited, edited)
+		time.Sleep(1100 * time.Millisecond)
+		oldwd, _ := os.Getwd()
+		os.Chdir(dir)
+		r.Run(nil, "diff", "main", "--branch-file", "--no-gui")
+		os.Chdir(oldwd)
+		if out, err := r.Run(nil, "commit", "main", "after diff", "-n", "1"); err != nil {
+			return fail("commit-after-diff", err, out)
+		}
+		rows = curA
+		projectHead(203, curA)
+		// (b)
+		var cached time.Time
+		if db, rs, closeFn, err := r.Open(); err == nil {
+			if sum, err := ref.GetHead(rs, "main-tmp"); err == nil {
+				if com, err := objects.GetCommit(db, sum); err == nil {
+					cached = com.Time
+				}
+			}
+			closeFn()
+		}
+		if !cached.IsZero() {
+			curB := edit("~b")
+			r.WriteFile("data.csv", tbl.CSV(append([][]string{t.Cols}, curB...), 0))
+			same := cached.Truncate(time.Second).Add(500 * time.Millisecond)
+			os.Chtimes(fp, same, same)
+			if out, err := r.Run(nil, "commit", "main", "same second", "-n", "1"); err != nil {
+				return fail("commit-same-second", err, out)
+			}
+			rows = curB
+			projectHead(204, curB)
 		}
 	}
 	// the commit cache: commits driven by the branch configuration reuse a cached temporary commit when the
